@@ -177,11 +177,22 @@ def _real_expr(e, env, where):
         return f'({_u(e.func)[3:]} {_real_expr(e.args[0], env, where)})'
     raise Refuse(f'{where}: unsupported scaling expression {_u(e)[:60]}')
 
+def _int_pair(t):
+    try:
+        v = ast.literal_eval(t)
+    except Exception:
+        return None
+    if isinstance(v, (tuple, list)) and len(v) == 2 and all(isinstance(x, int) and not isinstance(x, bool) for x in v): return (v[0], v[1])
+    return None
+
 def _dft2(fn, mat_params, mats):
     params = [a.arg for a in fn.args.args]
     if params != ['f', 'alpha', 'shape', 'shift', 'offset', 'unitary', 'out']: raise Refuse(f'dft2: parameters changed: {params}')
     defaults = {p: _u(d) for p, d in zip(params[-len(fn.args.defaults):], fn.args.defaults)}
-    if defaults != {'shape': 'None', 'shift': '(0, 0)', 'offset': '(0, 0)', 'unitary': 'True', 'out': 'None'}:
+    # shape=None / out=None are structural; the defaults of shift, offset (pairs of integer literals) and unitary (a bool literal) are
+    # EMITTED (fwDft2Default…, wave 12) and C01.default_calls_roundtrip is a statement about them
+    if set(defaults) != {'shape', 'shift', 'offset', 'unitary', 'out'} or defaults['shape'] != 'None' or defaults['out'] != 'None' \
+            or defaults['unitary'] not in ('True', 'False') or not _int_pair(defaults['shift']) or not _int_pair(defaults['offset']):
         raise Refuse(f'dft2: defaults changed: {defaults}')
     env, shape_default, call, prod, scale = {}, None, None, None, None
     out_guard = False
@@ -262,7 +273,7 @@ def _dft2(fn, mat_params, mats):
         raise Refuse(f'dft2: unsupported product expression {_u(e)[:60]}')
     fprod, oshape = tree(prod, top=True)
     return {'passed': passed, 'prod': fprod('u', 'v'), 'oshape': oshape, 'scale': scale, 'shape_default': shape_default,
-            'offset_default': defaults['offset'], 'unitary_default': defaults['unitary'], 'out_guard': out_guard}
+            'offset_default': defaults['offset'], 'unitary_default': defaults['unitary'], 'shift_default': defaults['shift'], 'out_guard': out_guard}
 
 
 # ------------------------------------------------------------------------------------------ idft2
@@ -285,10 +296,14 @@ def _idft2(fn, dft2_fn, dft2_info):
     under which condition"""
     params = [a.arg for a in fn.args.args]
     if params[0] != 'F' or set(params[1:]) != {'alpha', 'shape', 'shift', 'unitary', 'out'}: raise Refuse(f'idft2: parameters changed: {params}')
+    idef = {p: _u(d) for p, d in zip(params[-len(fn.args.defaults):], fn.args.defaults)}
+    if set(idef) != {'shape', 'shift', 'unitary', 'out'} or idef['shape'] != 'None' or idef['out'] != 'None' \
+            or idef['unitary'] not in ('True', 'False') or not _int_pair(idef['shift']):
+        raise Refuse(f'idft2: defaults changed: {idef}')
     dparams = [a.arg for a in dft2_fn.args.args]
     env = {'F': _Arr('in')}
     ints = {}
-    flags = {'passes_out': False, 'div_inplace': None}      # the out= plumbing of idft2 (wave 12): emitted as Gen constants
+    flags = {'passes_out': False, 'div_inplace': None, 'shift_default': _int_pair(idef['shift']), 'unitary_default': idef['unitary'] == 'True'}      # the out= plumbing of idft2 (wave 12): emitted as Gen constants
     def bexpr(e):
         if isinstance(e, ast.Name) and e.id == 'unitary': return 'unitary'
         if isinstance(e, ast.Constant) and isinstance(e.value, bool): return 'true' if e.value else 'false'
@@ -434,6 +449,14 @@ def generate(repo):
              f'def fwIdft2PassesOut : Bool := {b(idft2_flags["passes_out"])}\n'
              f'def fwIdft2ConjInPlace : Bool := true\n'
              f'def fwIdft2DivideInPlace : Bool := {b(bool(idft2_flags["div_inplace"]))}\n')
+    ds, do_ = _int_pair(d['shift_default']), _int_pair(d['offset_default'])
+    L.append(f'/-- the default arguments of `dft2` and `idft2` (what a call `dft2(f, alpha)` / `idft2(F, alpha)` uses): `shift`, `offset`, `unitary`; '
+             f'`shape=None` is `fwDft2ShapeDefault`, `out=None` a fresh allocation -/\n'
+             f'def fwDft2DefaultShift : Int × Int := ({ds[0]}, {ds[1]})\n'
+             f'def fwDft2DefaultOffset : Int × Int := ({do_[0]}, {do_[1]})\n'
+             f'def fwDft2DefaultUnitary : Bool := {b(d["unitary_default"] == "True")}\n'
+             f'def fwIdft2DefaultShift : Int × Int := ({idft2_flags["shift_default"][0]}, {idft2_flags["shift_default"][1]})\n'
+             f'def fwIdft2DefaultUnitary : Bool := {b(idft2_flags["unitary_default"])}\n')
     notes = ['fourier.py: np.floor(b/2.0) translated as Int floor division b / 2 (exact for array sizes); np.broadcast_to(x, (2,)) as the '
              'pair (x0, x1) (a scalar x is x0 = x1, exercised by the harness); out=/lru_cache/asarray are not modelled']
     return '\n'.join(L), notes
